@@ -150,6 +150,9 @@ type c18Scn struct {
 	Roles     []c18Role    `json:"roles"`    // pre-existing ClusterRoles
 	Bindings  []c18Binding `json:"bindings"` // pre-existing ClusterRoleBindings
 	Faults    [][]c18Fault `json:"faults"`   // one fault plan per round
+	// tree: raw rule-tree operations
+	Paths   [][]string `json:"paths"`   // node.Allow(p) in this order
+	Queries [][]string `json:"queries"` // node.Allowed(q)
 }
 
 type c18Obs struct {
@@ -160,6 +163,7 @@ type c18Obs struct {
 	Writes   [][]string   `json:"writes"`  // per round: applied writes "create:<name>" / "update:<name>"
 	Roles    []c18Role    `json:"roles"`   // final ClusterRoles, sorted by name
 	Bindings []c18Binding `json:"bindings"`
+	Allowed  []bool       `json:"allowed"` // tree: node.Allowed per query
 }
 
 const (
@@ -447,9 +451,25 @@ func c18Reconciler(st *Store, s c18Scn) reconcile.Reconciler {
 }
 
 func c18Run(s c18Scn) (c18Obs, []Mon) {
-	obs := c18Obs{Rejected: []c18Rule{}, Cov: []bool{}, Results: []string{}, Writes: [][]string{}, Roles: []c18Role{}, Bindings: []c18Binding{}}
+	obs := c18Obs{Allowed: []bool{}, Rejected: []c18Rule{}, Cov: []bool{}, Results: []string{}, Writes: [][]string{}, Roles: []c18Role{}, Bindings: []c18Binding{}}
 	var mons []Mon
 	st := c18Store(s)
+
+	if s.Kind == "tree" {
+		if p := Guard(func() {
+			t := roles.VerifNewTree()
+			for _, q := range s.Paths {
+				t.Allow(q)
+			}
+			for _, q := range s.Queries {
+				obs.Allowed = append(obs.Allowed, t.Allowed(q))
+			}
+		}); p != "" {
+			mons = append(mons, Mon{Sig: "C18:panic", Why: p})
+		}
+		mons = append(mons, c18MonTree(s, obs)...)
+		return obs, mons
+	}
 
 	if s.Kind == "validate" {
 		rej, err, p := c18Validate(st, "role", c18K8sRules(s.Requests))
@@ -538,28 +558,66 @@ func c18Run(s c18Scn) (c18Obs, []Mon) {
 
 func c18Cls(s c18Scn, obs c18Obs) string {
 	switch s.Kind {
+	case "tree":
+		yes := 0
+		for _, a := range obs.Allowed {
+			if a {
+				yes++
+			}
+		}
+		switch {
+		case len(obs.Allowed) == 0:
+			return "trivial/tree/no-query"
+		case yes == 0:
+			return "tree/none-allowed"
+		case yes == len(obs.Allowed):
+			return "tree/all-allowed"
+		}
+		return "tree/some-allowed"
 	case "validate":
-		star, emptyURL, sub := false, false, false
+		special := ""
+		hasURL, hasRes := false, false
 		for _, a := range s.Allow {
 			for _, n := range a.N {
-				star = star || n == "*"
+				if n == "*" {
+					special = "/allow-star-name"
+				}
 			}
 			for _, u := range a.U {
-				emptyURL = emptyURL || u == ""
+				if u == "" {
+					special = "/empty-url"
+				}
 			}
 		}
 		nsub := 0
 		for _, q := range s.Requests {
 			for _, r := range q.R {
-				sub = sub || strings.Contains(r, "/")
+				if strings.Contains(r, "/") && special == "" {
+					special = "/subresource"
+				}
 			}
 			for _, u := range q.U {
-				emptyURL = emptyURL || u == ""
+				if u == "" {
+					special = "/empty-url"
+				}
 			}
-			nsub += len(c18Breakdown(q.k8s()))
+			for _, sub := range c18Breakdown(q.k8s()) {
+				nsub++
+				if len(sub.NonResourceURLs) > 0 {
+					hasURL = true
+				} else {
+					hasRes = true
+				}
+			}
 		}
 		if nsub == 0 {
 			return "trivial/validate/no-granular-request"
+		}
+		kind := "resource-requests"
+		if hasURL && hasRes {
+			kind = "resource+url-requests"
+		} else if hasURL {
+			kind = "url-requests"
 		}
 		verdict := "all-granted"
 		if len(obs.Rejected) > 0 {
@@ -568,63 +626,80 @@ func c18Cls(s c18Scn, obs c18Obs) string {
 				verdict = "all-rejected"
 			}
 		}
-		return fmt.Sprintf("validate/allow=%d/req=%d/%s/starName=%t/emptyURL=%t/subres=%t", len(s.Allow), len(s.Requests), verdict, star, emptyURL, sub)
+		if len(s.Allow) == 0 {
+			verdict = "empty-allow-list"
+		}
+		return "validate/" + kind + "/" + verdict + special
 	case "reconcile":
-		var t *c18PR
-		for i := range s.PRs {
-			if s.PRs[i].Name == s.Target {
-				t = &s.PRs[i]
-			}
-		}
+		t := c18Target(s)
 		if t == nil {
-			return "reconcile/target-missing"
+			return "reconcile/revision-missing"
 		}
-		st := "live"
 		if t.Paused {
-			st = "paused"
-		} else if t.Deleted {
-			st = "deleted"
+			return "reconcile/paused"
 		}
-		fault := "none"
-		for _, fs := range s.Faults {
-			for _, f := range fs {
-				fault = f.O
-			}
+		if t.Deleted {
+			return "reconcile/deleted"
 		}
 		rej := "granted"
 		if obs.VErr {
-			rej = "verr"
+			rej = "validator-error"
 		} else if len(obs.Rejected) > 0 {
 			rej = "rejected"
+		} else if len(t.Requests) == 0 {
+			rej = "no-requests"
 		}
-		nw := 0
-		for _, w := range obs.Writes {
-			nw += len(w)
+		fam := "none"
+		if t.Family != "" {
+			same, cross := false, false
+			for _, m := range s.PRs {
+				if m.UID == t.UID || m.Family != t.Family {
+					continue
+				}
+				if t.Org != nil && m.Org != nil && *t.Org == *m.Org {
+					same = true
+				} else {
+					cross = true
+				}
+			}
+			switch {
+			case same && cross:
+				fam = "same+other-org-members"
+			case same:
+				fam = "same-org-members"
+			case cross:
+				fam = "other-org-members"
+			default:
+				fam = "alone"
+			}
 		}
-		return fmt.Sprintf("reconcile/%s/validator=%s/%s/family=%t/members=%d/pre=%d/rounds=%d/fault=%s/writes=%d", st, s.Validator, rej, t.Family != "", len(s.PRs)-1, len(s.Roles), len(s.Faults), fault, nw)
+		return fmt.Sprintf("reconcile/validator=%s/%s/family=%s", s.Validator, rej, fam)
 	case "xrd":
-		if len(s.XRDs) == 0 {
-			return "xrd/target-missing"
+		if len(s.XRDs) == 0 || s.XRDs[0].Name != s.Target {
+			return "xrd/missing"
 		}
-		fault := "none"
-		for _, fs := range s.Faults {
-			for _, f := range fs {
-				fault = f.O
-			}
+		if s.XRDs[0].Deleted {
+			return "xrd/deleted"
 		}
-		return fmt.Sprintf("xrd/claim=%t/deleted=%t/pre=%d/rounds=%d/fault=%s", s.XRDs[0].HasClaim, s.XRDs[0].Deleted, len(s.Roles), len(s.Faults), fault)
+		return fmt.Sprintf("xrd/claim=%t", s.XRDs[0].HasClaim)
 	case "binding":
-		fault := "none"
-		for _, fs := range s.Faults {
-			for _, f := range fs {
-				fault = f.O
-			}
+		t := c18Target(s)
+		if t == nil || t.Paused || t.Deleted {
+			return "binding/inactive-revision"
 		}
 		nsub := 0
 		for _, b := range obs.Bindings {
-			nsub += len(b.Subjects)
+			if strings.HasPrefix(b.Name, "crossplane:provider:") {
+				nsub += len(b.Subjects)
+			}
 		}
-		return fmt.Sprintf("binding/deploys=%d/pre=%d/rounds=%d/fault=%s/subjects=%d", len(s.Deploys), len(s.Bindings), len(s.Faults), fault, nsub)
+		switch {
+		case nsub == 0:
+			return "binding/no-subjects"
+		case nsub == 1:
+			return "binding/one-subject"
+		}
+		return "binding/many-subjects"
 	}
 	return "trivial/unknown-kind"
 }
@@ -694,6 +769,18 @@ func c18Normalize(s *c18Scn) {
 	}
 	if s.Faults == nil {
 		s.Faults = [][]c18Fault{}
+	}
+	if s.Paths == nil {
+		s.Paths = [][]string{}
+	}
+	if s.Queries == nil {
+		s.Queries = [][]string{}
+	}
+	for i := range s.Paths {
+		s.Paths[i] = c18NN(s.Paths[i])
+	}
+	for i := range s.Queries {
+		s.Queries[i] = c18NN(s.Queries[i])
 	}
 	for i := range s.Faults {
 		if s.Faults[i] == nil {
